@@ -149,8 +149,8 @@ func runC39(c *Ctx) {
 		return ssau.ReachFromBlock(f, ssau.Arm(sel, side), cut)
 	}
 	// loops over Outputs()/Inputs() in each region
-	loopOver := func(r *ssau.Reach, method string) *ssa.If {
-		for _, i := range ssau.Ifs(f) {
+	loopOverIn := func(g *ssa.Function, r *ssau.Reach, method string) *ssa.If {
+		for _, i := range ssau.Ifs(g) {
 			b, ok := i.Cond.(*ssa.BinOp)
 			if !ok || b.Op != token.LSS || i.Block().Comment != "rangeindex.loop" || !r.Instr(i) {
 				continue
@@ -161,24 +161,25 @@ func runC39(c *Ctx) {
 		}
 		return nil
 	}
+	loopOver := func(r *ssau.Reach, method string) *ssa.If { return loopOverIn(f, r, method) }
 	// reachFalse: can ret be reached under cut on a path where its (non-constant) result may be false? Arms on which
 	// the returned variable itself was tested true are excluded.
-	reachFalse := func(from *ssa.BasicBlock, cut *ssau.Cut, ret *ssa.Return) bool {
+	reachFalseIn := func(g *ssa.Function, from *ssa.BasicBlock, cut *ssau.Cut, ret *ssa.Return) bool {
 		cc := cut.Clone()
 		v := ret.Results[0]
 		if _, isC := v.(*ssa.Const); !isC {
-			for _, i := range ssau.Ifs(f) {
+			for _, i := range ssau.Ifs(g) {
 				x, neg := ssau.StripNot(i.Cond)
 				if x == v {
 					cc.AddEdge(i.Block(), ssau.Arm(i, !neg))
 				}
 			}
 		}
-		return ssau.ReachFromBlock(f, from, cc).Instr(ret)
+		return ssau.ReachFromBlock(g, from, cc).Instr(ret)
 	}
-	falseRets := func(r *ssau.Reach) []*ssa.Return {
+	falseRetsIn := func(g *ssa.Function, r *ssau.Reach) []*ssa.Return {
 		var out []*ssa.Return
-		for _, ret := range ssau.Returns(f) {
+		for _, ret := range ssau.Returns(g) {
 			if !r.Instr(ret) {
 				continue
 			}
@@ -189,20 +190,25 @@ func runC39(c *Ctx) {
 		}
 		return out
 	}
-	// side chain region
-	sr := inRegion(true)
-	if lo := loopOver(sr, "Outputs"); lo != nil {
-		cut := ssau.NewCut()
-		cut.AddEdge(sel.Block(), ssau.Arm(sel, false))
+	falseRets := func(r *ssau.Reach) []*ssa.Return { return falseRetsIn(f, r) }
+	reachFalse := func(from *ssa.BasicBlock, cut *ssau.Cut, ret *ssa.Return) bool { return reachFalseIn(f, from, cut, ret) }
+	_ = reachFalse
+	// side chain region: in g, starting at block from, with the edges of base removed
+	sideRegion := func(g *ssa.Function, from *ssa.BasicBlock, base *ssau.Cut, sr *ssau.Reach) bool {
+		lo := loopOverIn(g, sr, "Outputs")
+		if lo == nil {
+			return false
+		}
+		cut := base.Clone()
 		cut.AddEdge(lo.Block(), ssau.Arm(lo, false)) // loop exhausted
-		for _, i := range ssau.Ifs(f) {
+		for _, i := range ssau.Ifs(g) {
 			if b, ok := i.Cond.(*ssa.BinOp); ok && b.Op == token.NEQ && isConstInt(0)(b.Y) && isLenOf(func(v ssa.Value) bool { return ssau.IsFieldOf(ssau.Unwrap(v), "FilterLoad", "Filter") })(b.X) {
 				cut.AddEdge(i.Block(), ssau.Arm(i, false)) // empty filter
 			}
 		}
 		bad := ""
-		for _, ret := range falseRets(sr) {
-			if reachFalse(ssau.Arm(sel, true), cut, ret) {
+		for _, ret := range falseRetsIn(g, sr) {
+			if reachFalseIn(g, from, cut, ret) {
 				bad = c.posOf(ret)
 			}
 		}
@@ -211,9 +217,28 @@ func runC39(c *Ctx) {
 			det = "the return at " + bad + " can answer false before the outputs were tested against the filter"
 		}
 		c.R.Check("R-sidechain", "false only after every output was tested", bad == "", c.posOf(lo), det)
-		c.R.Check("R-sidechain", "every output tested", noBypassInLoopAt(f, lo.Block(), matchP), c.posOf(lo), "every iteration calls matches(txOut.ProgramHash)")
-	} else {
-		c.R.Check("R-sidechain", "outputs loop", false, c.pos(f.Pos()), "no loop over Outputs() in the side chain branch")
+		c.R.Check("R-sidechain", "every output tested", noBypassInLoopAt(g, lo.Block(), matchP), c.posOf(lo), "every iteration calls matches(txOut.ProgramHash)")
+		return true
+	}
+	sr := inRegion(true)
+	base := ssau.NewCut()
+	base.AddEdge(sel.Block(), ssau.Arm(sel, false))
+	if !sideRegion(f, ssau.Arm(sel, true), base, sr) {
+		// the side chain branch may hand the whole answer to a method of the filter
+		done := false
+		for _, ret := range ssau.Returns(f) {
+			if !sr.Instr(ret) || done {
+				continue
+			}
+			if cl, ok := ssau.ResolveSpill(ret.Results[0]).(*ssa.Call); ok {
+				if h := cl.Call.StaticCallee(); h != nil && h.Pkg == f.Pkg && len(h.Blocks) > 0 {
+					done = sideRegion(h, h.Blocks[0], ssau.NewCut(), ssau.ReachFromEntry(h, nil))
+				}
+			}
+		}
+		if !done {
+			c.R.Check("R-sidechain", "outputs loop", false, c.pos(f.Pos()), "no loop over Outputs() in the side chain branch")
+		}
 	}
 	// ordinary region
 	nr := inRegion(false)
